@@ -40,13 +40,13 @@ class {C2} {{ {f4}: "(" >> {R1} << ")"; {f5}: ("!" | 0x21)? }}
 {T1}({p1}) = "<" >> (/[a-z]+/ where `lambda zz9: zz9 == {p1}`) << ">"
 ignore / +/
 ''', ['ab=cd', 'ab=<ab>', 'ab=<cd>', '12 ab; 7', 'x=(y=z)!;3', 'x=(y=<y>); q=w', 'ab=', '', 'x=(12 y)']),
-    ('''start = {T1}({R1}, ",") | {R2}
+    ('''start = ({T1}({R1}, ",") << "!") | {T1}({R1}, ",") | {R2}
 {T1}({p1}, {p2}) = let {v1} = {p1} in [`{v1}`, ({p2} >> {p1})*] where `lambda {v2}: len({v2}[1]) < 3`
 {R1} = /[a-z]/ | {C1}
 class {C1} {{ {f1}: /[0-9]/; {f2}: {T2}({f1})? }}
 {T2}({p3}) = "=" >> (/[0-9]/ where `lambda zz9: zz9 == {p3}`)
 {R2} = ("x" | "y"){{2,3}} |> `lambda {v3}: ''.join({v3})`
-''', ['a,b', 'a', '1=1,2', '1=2', 'a,b,c,d', 'xyx', 'xy', '3,a,4=4', '']),
+''', ['a,b', 'a', '1=1,2', '1=2', 'a,b,c,d', 'xyx', 'xy', '3,a,4=4', '', 'a,b!', 'a!']),
     ('''start = {R1} between {{
     prefix: "-"
     left: "+", "-"
@@ -66,13 +66,32 @@ class {C1}({p1}, {p2}) {{
     ('''grammar <G>a
 start = {R1}+
 {R1} = /[a-z]/
+{T1}({p1}) = "[" >> {p1} << "]"
 ignore / +/
 ----
 grammar <G>b extends <G>a
 {R2} = /[0-9]+/
 class {C1} {{ {f1}: {R2}; {f2}: ("." >> {R2})? }}
 override {R1} = {C1} | super.{R1}
-''', ['a', 'a 1 b', '12.5 x', '1.', '', 'a.1']),
+----
+grammar <G>c extends <G>b
+{R3} = {T1}({R2} // ",")
+override start = ({R3} | {R1})+
+''', ['a', 'a 1 b', '12.5 x', '1.', '', 'a.1', '[1,2] a', '[1', '[] 3']),
+    # operator tables with postfix rows next to parameters and fields
+    ('''start = ({T1}(/[0-9]/) << ";") | {C1}
+{T1}({p1}) = {p1} between {{
+    postfix: "!"
+    left: "+"
+}}
+class {C1} {{
+    {f1}: /[a-z]/
+    {f2}: "=" >> (/[0-9]/ between {{
+        postfix: "!"
+        prefix: "-"
+    }})
+}}
+''', ['1!+2;', '1+2;', '1!;', 'x=1!', 'x=-1', 'x=1', '1!+', '']),
 ]
 
 NEUTRAL = {'R1': 'Alpha', 'R2': 'Beta', 'R3': 'Gamma', 'C1': 'Kappa', 'C2': 'Lambda', 'T1': 'Tau', 'T2': 'Upsilon',
